@@ -646,7 +646,9 @@ PROPS["C12"] = {
              "during unit (harness-owned schedule): the scan inside NewCache / Configure is held at a named pipe (the last file of one "
              "directory, through a symbolic link) while one generated change is made in a watched directory, so that the watcher goroutine "
              "gets an event while the constructor is still scanning; oracle: no race report, the call returns, and the cache converges to the "
-             "view of a fresh cache. "
+             "view of a fresh cache. churn unit: 6 goroutines write and remove Spec files that sort before an untouched one while the main "
+             "goroutine refreshes and queries a manual cache for 8 s (thorough 120 s) per shard: the untouched file's devices must be in every "
+             "ListDevices result and inject completely every time (a file vanishing between listing and reading concerns that file only). "
              "Non-trivial iff the program contains a mutating operation (Configure, WriteSpec, RemoveSpec); distinct = distinct programs."),
     "assumptions": ["schedules are those the Go runtime produces under stress; they are not enumerated",
                     "the race detector sees only races that the executed schedule makes happen-unordered"],
@@ -662,6 +664,8 @@ PROPS["C12"] = {
         {"name": "regress", "mode": "plain", "run": "TestC12Regress", "race": True},
         {"name": "rapid", "mode": "rapid", "run": "TestC12Rapid", "race": True, "checks": {"quick": 480, "thorough": 9600}, "timeout": {"quick": 400, "thorough": 3600}},
         {"name": "during", "mode": "rapid", "run": "TestC12During", "race": True, "shards": 4, "checks": {"quick": 320, "thorough": 8000}},
+        {"name": "churn", "mode": "plain", "run": "TestC12Churn", "race": True, "shards": {"quick": 4, "thorough": 8},
+         "env": {"VERIF_C12_CHURN_MS": {"quick": 8000, "thorough": 120000}}},
     ],
 }
 
